@@ -7,7 +7,7 @@
 //! delays. Oracle: reader()/search never fail; a reader's match_all equals exactly one of
 //! the committed states current during its open; asking again later gives the same answer.
 use searchlite_core::api::{Index, IndexReader};
-use searchlite_core::storage::{FsStorage, InMemoryStorage, Storage};
+use searchlite_core::storage::{DynFile, FsStorage, InMemoryStorage, Storage};
 use serde_json::{json, Value};
 use std::collections::BTreeMap;
 use std::sync::atomic::{AtomicBool, AtomicUsize, Ordering};
@@ -88,10 +88,81 @@ struct World {
   next: usize,
 }
 
+/// Storage wrapper for the "failing commit" family: once armed, the next store of MANIFEST.json
+/// announces itself, stays inside the call until resumed (a slow, then failing, disk) and returns an
+/// error without effect. Everything else is passed through to the real storage.
+struct HoldStorage {
+  inner: Arc<dyn Storage>,
+  armed: AtomicBool,
+  gate: Arc<Gate>,
+}
+
+impl Storage for HoldStorage {
+  fn root(&self) -> &std::path::Path {
+    self.inner.root()
+  }
+  fn ensure_dir(&self, path: &std::path::Path) -> anyhow::Result<()> {
+    self.inner.ensure_dir(path)
+  }
+  fn exists(&self, path: &std::path::Path) -> bool {
+    self.inner.exists(path)
+  }
+  fn open_read(&self, path: &std::path::Path) -> anyhow::Result<DynFile> {
+    self.inner.open_read(path)
+  }
+  fn open_write(&self, path: &std::path::Path) -> anyhow::Result<DynFile> {
+    self.inner.open_write(path)
+  }
+  fn open_append(&self, path: &std::path::Path) -> anyhow::Result<DynFile> {
+    self.inner.open_append(path)
+  }
+  fn read_to_end(&self, path: &std::path::Path) -> anyhow::Result<Vec<u8>> {
+    self.inner.read_to_end(path)
+  }
+  fn write_all(&self, path: &std::path::Path, data: &[u8]) -> anyhow::Result<()> {
+    self.inner.write_all(path, data)
+  }
+  fn atomic_write(&self, path: &std::path::Path, data: &[u8]) -> anyhow::Result<()> {
+    let is_manifest = path.file_name().map(|n| n == "MANIFEST.json").unwrap_or(false);
+    if is_manifest && self.armed.swap(false, Ordering::SeqCst) {
+      self.gate.reached.store(true, Ordering::SeqCst);
+      let t = Instant::now();
+      while !self.gate.resume.load(Ordering::SeqCst) {
+        if t.elapsed() > Duration::from_secs(5) {
+          self.gate.timed_out.store(true, Ordering::SeqCst);
+          break;
+        }
+        std::thread::sleep(Duration::from_micros(100));
+      }
+      anyhow::bail!("injected fault: the manifest could not be stored");
+    }
+    self.inner.atomic_write(path, data)
+  }
+  fn remove(&self, path: &std::path::Path) -> anyhow::Result<()> {
+    self.inner.remove(path)
+  }
+  fn remove_dir_all(&self, path: &std::path::Path) -> anyhow::Result<()> {
+    self.inner.remove_dir_all(path)
+  }
+}
+
 fn setup(rng: &mut Rng, dir: &std::path::Path, in_mem: bool) -> Result<World, String> {
+  setup_with(rng, dir, in_mem, None)
+}
+
+fn setup_with(rng: &mut Rng, dir: &std::path::Path, in_mem: bool, hold: Option<Arc<Gate>>) -> Result<World, String> {
+  setup_inner(rng, dir, in_mem, hold).map(|(w, _)| w)
+}
+
+fn setup_inner(rng: &mut Rng, dir: &std::path::Path, in_mem: bool, hold: Option<Arc<Gate>>) -> Result<(World, Option<Arc<HoldStorage>>), String> {
   let _ = std::fs::remove_dir_all(dir);
   std::fs::create_dir_all(dir).unwrap();
-  let storage: Arc<dyn Storage> = if in_mem { Arc::new(InMemoryStorage::new(dir.to_path_buf())) } else { Arc::new(FsStorage::new(dir.to_path_buf())) };
+  let base: Arc<dyn Storage> = if in_mem { Arc::new(InMemoryStorage::new(dir.to_path_buf())) } else { Arc::new(FsStorage::new(dir.to_path_buf())) };
+  let held: Option<Arc<HoldStorage>> = hold.map(|gate| Arc::new(HoldStorage { inner: base.clone(), armed: AtomicBool::new(false), gate }));
+  let storage: Arc<dyn Storage> = match &held {
+    Some(h) => h.clone(),
+    None => base,
+  };
   let schema = json!({"doc_id_field":"_id","text_fields":[{"name":"body","analyzer":"default","stored":true,"indexed":true}],"keyword_fields":[{"name":"tag","stored":true,"indexed":true,"fast":true}],"numeric_fields":[]});
   let index = Index::create_with_storage(dir, idx::schema(&schema).unwrap(), idx::opts(dir, in_mem), storage).map_err(|e| format!("{e:#}"))?;
   let mut w = World { index: Arc::new(index), state: State::new(), next: 0 };
@@ -115,7 +186,7 @@ fn setup(rng: &mut Rng, dir: &std::path::Path, in_mem: bool) -> Result<World, St
     wr.commit().map_err(|e| format!("{e:#}"))?;
     w.state.remove(&id);
   }
-  Ok(w)
+  Ok((w, held))
 }
 
 /// Perform a writer-side operation; returns the state afterwards.
@@ -178,7 +249,7 @@ fn main() {
   let args: Vec<String> = std::env::args().skip(1).collect();
   let mut ctx = Ctx::from_args("C06", "exploration", &args);
   let quick = ctx.quick();
-  ctx.rule = "directed schedules over the hook's pause points: family A holds a reader at {after manifest copy, before segment 0/1/2} while one of {commit adding a segment, delete-only commit, upsert commit, compaction, commit+compaction} completes (including file cleanup) and then resumes it; family B holds the commit/compaction at each of its 9 publish/cleanup points while a reader opens and searches; every (point, writer operation, index shape, storage) combination is one schedule. Stress mode: 3 readers loop open/search against a writer and a compactor with seeded delays. evaluations = reader observations judged (membership in the admissible committed states, repeat-read equality, no error); distinct_nontrivial = distinct (family, pause point, writer operation, #segments, storage, point actually reached) schedules plus distinct stress interleavings (hash of the global pause-point order).".into();
+  ctx.rule = "directed schedules over the hook's pause points: family A holds a reader at {after manifest copy, before segment 0/1/2} while one of {commit adding a segment, delete-only commit, upsert commit, compaction, commit+compaction} completes (including file cleanup) and then resumes it; family B holds the commit/compaction at each of its 9 publish/cleanup points while a reader opens and searches; every (point, writer operation, index shape, storage) combination is one schedule. Failing-commit family: a Storage wrapper holds a commit inside its manifest store and then fails it; a reader opened in that window must succeed and return the last committed state (and keep returning it). Stress mode: 3 readers loop open/search against a writer and a compactor with seeded delays. evaluations = reader observations judged (membership in the admissible committed states, repeat-read equality, no error); distinct_nontrivial = distinct (family, pause point, writer operation, #segments, storage, point actually reached) schedules plus distinct stress interleavings (hash of the global pause-point order).".into();
   ctx.assumptions = vec![
     "a held thread that makes the other side block on a real lock is released after 300 ms (reported as lock-blocked, never as a verdict)".into(),
     "states are identified by the full (id, body) set read with match_all, return_stored, large limit".into(),
@@ -403,6 +474,88 @@ fn main() {
     }
     for (k, d) in problems {
       l.fail(k.clone(), format!("{k}: {d}"), case.clone());
+    }
+    drop(world);
+    let _ = std::fs::remove_dir_all(&dir);
+  });
+  // ---- failing commit: a reader opens while a commit is stuck in a manifest store that then fails ----
+  let failing = ctx.n(24, 600);
+  ctx.run_cases("failing-commit", failing, |rng: &mut Rng, l: &mut Local, scratch| {
+    let in_mem = rng.chance(0.25);
+    let dir = scratch.join("idx");
+    let gate = Gate::new();
+    let (world, held) = match setup_inner(rng, &dir, in_mem, Some(gate.clone())) {
+      Ok(x) => x,
+      Err(e) => {
+        l.inconclusive(format!("setup: {e}"));
+        return;
+      }
+    };
+    let held = held.unwrap();
+    let s_before = world.state.clone();
+    let index = world.index.clone();
+    let kind = ["add", "delete", "upsert"][rng.usize(3)];
+    let victim = s_before.keys().next().cloned();
+    let new_id = format!("d{}", world.next);
+    held.armed.store(true, Ordering::SeqCst);
+    let done = Arc::new(AtomicBool::new(false));
+    let (ix, d2, k2, v2, n2) = (index.clone(), done.clone(), kind, victim.clone(), new_id.clone());
+    let wh = std::thread::spawn(move || {
+      let r = vcore::ctx::catch(|| -> Result<(), String> {
+        let mut wr = ix.writer().map_err(|e| format!("writer: {e:#}"))?;
+        match (k2, v2) {
+          ("delete", Some(id)) => wr.delete_document(&id).map_err(|e| format!("{e:#}"))?,
+          ("upsert", Some(id)) => {
+            wr.add_document(&idx::doc(&json!({"_id": id, "body": "never committed upsert", "tag": "t"}))).map_err(|e| format!("{e:#}"))?;
+          }
+          _ => {
+            wr.add_document(&idx::doc(&json!({"_id": n2, "body": "never committed add", "tag": "t"}))).map_err(|e| format!("{e:#}"))?;
+          }
+        }
+        wr.commit().map_err(|e| format!("commit: {e:#}"))
+      });
+      d2.store(true, Ordering::SeqCst);
+      r
+    });
+    let reached = gate.wait_reached(Duration::from_secs(5), &done);
+    // reader(s) while the commit sits in the failing store
+    let during = vcore::ctx::catch(|| index.reader().map_err(|e| format!("reader() failed: {e:#}")).and_then(|r| read_state(&r).map(|s| (r, s))));
+    gate.resume.store(true, Ordering::SeqCst);
+    let commit_result = wh.join().unwrap();
+    let case = json!({"family": "failing-commit", "operation": kind, "storage": if in_mem {"InMemory"} else {"Filesystem"}, "fault_window_reached": reached,
+      "state_before": s_before, "commit_result": format!("{commit_result:?}")});
+    if !reached {
+      l.inconclusive("the armed manifest store was never reached");
+      return;
+    }
+    if matches!(commit_result, Ok(Ok(()))) {
+      l.inconclusive("the commit succeeded although its manifest store failed (C03's subject)");
+      return;
+    }
+    l.eval();
+    l.nontrivial(&("failing-commit", kind, in_mem, world.index.manifest().segments.len()));
+    l.count("failing_commit_windows_observed", 1);
+    match during {
+      Err(p) => l.fail(format!("reader-panic:{}", vcore::ctx::panic_site(&p)), format!("reader panicked while a commit was failing: {p}"), case.clone()),
+      Ok(Err(e)) => l.fail("reader-fails-during-failing-commit", format!("opening/searching a reader failed while a commit was stuck in a failing manifest store: {e}"), case.clone()),
+      Ok(Ok((reader, seen))) => {
+        if seen != s_before {
+          l.fail("reader-saw-state-of-a-commit-that-failed", format!("a reader opened during a commit whose manifest store then failed returned {seen:?}; the only committed state is {s_before:?}"), case.clone());
+        }
+        l.eval();
+        match vcore::ctx::catch(|| read_state(&reader)) {
+          Ok(Ok(again)) if again == seen => {}
+          other => l.fail("open-reader-results-changed", format!("the same reader answered differently after the failed commit: {other:?}"), case.clone()),
+        }
+      }
+    }
+    l.eval();
+    match index.reader().map_err(|e| format!("{e:#}")).and_then(|r| read_state(&r)) {
+      Ok(s) if s == s_before => {}
+      other => l.fail("fresh-reader-wrong-after-failed-commit", format!("after the failed commit a fresh reader gives {other:?}, expected {s_before:?}"), case.clone()),
+    }
+    if l.samples.len() < 2 {
+      l.sample(case);
     }
     drop(world);
     let _ = std::fs::remove_dir_all(&dir);
